@@ -3,18 +3,34 @@
 A *program spec* (JSON) selects and parametrises the components; `build(spec)` returns fresh instances,
 `configuration(spec)` the configuration dict and `plugins(spec)` the plugin configuration.
 Everything here is deterministic given the framework's randomness: components use no entropy of
-their own. Classes are module-level so that `dill` can restore a backup in another process.
+their own. Classes are module-level so that `dill` can restore a backup in another process; every component
+accepts its spec as a dict or as the hex-encoded JSON string the model-specification route needs
+(`vcheck.components.Pop('7b22…')`, component arguments in a specification file are plain strings).
 
-spec keys:
+spec keys (all but the first block optional; an absent key means the behaviour of the first version of the library):
   clock: "datetime" | "simple"          step: days (datetime; may be fractional) | ticks (simple)
-  n_steps: planned number of steps      pop: initial population size     seed: random_seed
-  crn_keys: 0..3 (number of key columns; 0 = no CRN)      map_size
+  n_steps: planned number of steps      pop: initial population size     seed: random_seed    additional_seed
+  crn_keys: 0..3 (number of key columns; 0 = no CRN)      map_size      uid_kind: "float" | "int" (dtype of the key column uid)
   births: list of births per step (cycled)                birth_phase: listener channel used for births
-  mort: None | {"mods": k}              disease: None | {"states": 2..4, "p": [sixteenths...], "self": bool}
-  stepmod: None | {"every": k, "mult": m}   (per-simulant clocks: simulants with id % every == 0 ask for m * step)
-  obs: None | {"strats": 0..3, "when": phase, "concat": bool, "defaults": [] | ["sex"] (needs strats >= 1) | ["sex", "color"] (>= 2), "values": 0..5 required value pipelines}
+  newborn: None | {"age0": sixteenths}  (births carry user data; newborn age = age0/16 + creation window fraction)
+  pop_extra: None | {"dist": None | "ppf" | "scipy", "p2d": bool, "residual": None | "local" | "stored"}
+  perm: bool    (components hand reversed indexes / reversed frames to streams, pipelines, tables and updates)
+  mort: None | {"mods": k, "scale": sixteenths (through CONFIGURATION: mort.scale), "form": "rate" | "prob", "kinds": callables used as modifiers}
+  disease: None | {"states": 2..4, "p": [sixteenths...], "self": bool, "back": bool, "excess": bool (modifier on mortality_rate from
+            THIS component), "trig": None | {"at": step, "every": m} (triggered transition activated by the component), "transient": bool}
+  stepmod: None | {"every": k, "mult": m, "vary": bool}   (per-simulant clocks: simulants with id % every == 0 ask for m * step)
+  obs: None | {"strats": 0..3, "when": phase, "concat": bool, "defaults": [...], "values": 0..5 required value pipelines,
+               "rich": bool (every other kind of observation / stratification), "cfg_excl": bool, "report": bool (Observer subclass)}
+  extras: None | {"pafs": [...], "cat": bool (categorical table), "tables": bool (tables declared as configuration data_sources),
+                  "ds": None | "name" | "pos" (Component.build_lookup_table with three value columns, consumed by name / by position),
+                  "art": None | {"draw": 0..2, "via": "load" | "ds"} (needs spec["artifact_path"], see write_artifact),
+                  "late": step | None, "private": bool, "foreign": bool}
+  order: permutation hints for the component order
 """
 from __future__ import annotations
+
+import functools
+import json
 
 from . import impl
 
@@ -23,20 +39,56 @@ impl.load()
 import numpy as np  # noqa: E402
 import pandas as pd  # noqa: E402
 from vivarium import Component  # noqa: E402
-from vivarium.framework.state_machine import Machine, State, Transition  # noqa: E402
+from vivarium.framework.randomness import RESIDUAL_CHOICE  # noqa: E402
+from vivarium.framework.results import Observer  # noqa: E402
+from vivarium.framework.state_machine import Machine, State, Transient, Transition, Trigger  # noqa: E402
 
 YEAR = 365.25
+START = (2020, 1, 1)
+
+
+def decode(spec):
+    """a spec as the component receives it: a dict, or hex-encoded JSON (model-specification route)"""
+    if isinstance(spec, str):
+        return json.loads(bytes.fromhex(spec).decode())
+    return spec
+
+
+def encode(spec) -> str:
+    return json.dumps(spec, sort_keys=True).encode().hex()
 
 
 def _is_dt(spec):
     return spec["clock"] == "datetime"
 
 
-class Pop(Component):
+def _rev(x, spec):
+    """reversed order (labels kept) when the program asks for permuted requests"""
+    return x[::-1] if spec.get("perm") else x
+
+
+class _Spec(Component):
     def __init__(self, spec):
         super().__init__()
-        self.spec = spec
+        self.spec = decode(spec)
+
+
+class _Ppf:
+    """picklable percent-point function for sample_from_distribution"""
+
+    def __init__(self, scale):
+        self.scale = scale
+
+    def __call__(self, draws, shift=0.0):
+        return np.floor(draws * 64) / 64 * self.scale + shift
+
+
+class Pop(_Spec):
+    def __init__(self, spec):
+        super().__init__(spec)
         self.step_no = 0
+        # weights kept in component state (what a backup has to carry)
+        self.weights = [0.5, RESIDUAL_CHOICE, 0.25] if (self.spec.get("pop_extra") or {}).get("residual") == "stored" else None
 
     @property
     def name(self):
@@ -44,7 +96,10 @@ class Pop(Component):
 
     @property
     def columns_created(self):
-        return ["age", "sex", "entrance_time", "color", "uid"]
+        cols = ["age", "sex", "entrance_time", "color", "uid"]
+        if (self.spec.get("pop_extra") or {}).get("dist"):
+            cols.append("bmi")
+        return cols
 
     def setup(self, builder):
         self.creator = builder.population.get_simulant_creator()
@@ -61,22 +116,50 @@ class Pop(Component):
     def on_initialize_simulants(self, pop_data):
         idx = pop_data.index
         n = len(idx)
+        px = self.spec.get("pop_extra") or {}
+        nb = self.spec.get("newborn")
         if n:
             age = self.crn.get_draw(idx, "age") * 80
-            uid = np.floor(self.crn.get_draw(idx, "uid") * 2 ** 30)
+            uid = np.floor(self.crn.get_draw(idx) * 2 ** 30)      # (no additional key: the call form with the default)
+            if nb and "age0" in pop_data.user_data:
+                # births carry user data; the creation window enters as an exact fraction of a year / of 36 ticks
+                w = pop_data.creation_window
+                frac = (w / pd.Timedelta(days=YEAR)) if _is_dt(self.spec) else w / 36.0
+                # (a draw-derived exact offset keeps the newborns of one step apart: age may be a CRN key column)
+                age = np.floor(age / 80 * 2 ** 24) / 2 ** 28 + pop_data.user_data["age0"] / 16.0 + frac
         else:
             age = pd.Series([], dtype=float, index=idx)
             uid = pd.Series([], dtype=float, index=idx)
+        if self.spec.get("uid_kind") == "int":
+            uid = uid.astype("int64")
         df = pd.DataFrame({"age": age, "entrance_time": pop_data.creation_time, "uid": uid}, index=idx)
         if self.keys:
             self.register(df[self.keys])
         if n:
-            df["sex"] = self.rs.choice(idx, ["m", "f"], additional_key="sex")
-            df["color"] = self.rs.choice(idx, ["r", "g", "b"], p=[0.5, 0.25, 0.25], additional_key="color")
+            ridx = _rev(idx, self.spec)
+            df["sex"] = self.rs.choice(ridx, ["m", "f"], additional_key="sex")
+            if px.get("p2d"):
+                # one weight row per simulant (2-d p), from the simulant's age
+                a = df.loc[ridx, "age"].to_numpy()
+                p = np.stack([1 + (a > 40), np.ones(len(a)), 1 + (a <= 40)], axis=1).astype(float)
+                df["color"] = self.rs.choice(ridx, np.array(["r", "g", "b"]), p=p, additional_key="color")
+            elif px.get("residual") == "local":
+                df["color"] = self.rs.choice(ridx, ("r", "g", "b"), p=[0.5, RESIDUAL_CHOICE, 0.25], additional_key="color")
+            elif px.get("residual") == "stored":
+                df["color"] = self.rs.choice(ridx, ("r", "g", "b"), p=self.weights, additional_key="color")
+            else:
+                df["color"] = self.rs.choice(ridx, ["r", "g", "b"], p=[0.5, 0.25, 0.25], additional_key="color")
+            if px.get("dist") == "ppf":
+                df["bmi"] = self.rs.sample_from_distribution(ridx, ppf=_Ppf(8.0), additional_key="bmi", shift=20.0)
+            elif px.get("dist") == "scipy":
+                from scipy import stats
+                df["bmi"] = self.rs.sample_from_distribution(ridx, distribution=stats.uniform, additional_key="bmi", loc=20.0, scale=8.0)
         else:
             df["sex"] = pd.Series([], dtype=object, index=idx)
             df["color"] = pd.Series([], dtype=object, index=idx)
-        self.population_view.update(df)
+            if px.get("dist"):
+                df["bmi"] = pd.Series([], dtype=float, index=idx)
+        self.population_view.update(_rev(df, self.spec))
 
     def births(self, event):
         b = self.spec["births"]
@@ -84,23 +167,50 @@ class Pop(Component):
         if self.spec.get("birth_phase", "time_step") != "time_step":
             self.step_no += 1
         if k:
-            self.creator(k, {"sim_state": "time_step"})
+            cfg = {"sim_state": "time_step"}
+            if self.spec.get("newborn"):
+                cfg["age0"] = self.spec["newborn"]["age0"]
+            self.creator(k, cfg)
 
     def on_time_step(self, event):
         if self.spec.get("birth_phase", "time_step") == "time_step":
             self.births(event)
             self.step_no += 1
-        pop = self.population_view.get(event.index)
+        pop = self.population_view.get(_rev(event.index, self.spec))
         if len(pop):
             dt = event.step_size / pd.Timedelta(days=YEAR) if _is_dt(self.spec) else event.step_size / 36.0
             pop["age"] = pop["age"] + dt
+            if self.weights is not None:
+                # the stored weights are used again in every step: a few simulants may change colour
+                pick = pop.index[pop.index % 3 == 0]
+                if len(pick):
+                    new = self.rs.choice(pick, ("r", "g", "b"), p=self.weights, additional_key="recolor")
+                    self.population_view.update(new.rename("color"))
             self.population_view.update(pop[["age"]])
 
 
-class Mort(Component):
-    def __init__(self, spec):
-        super().__init__()
-        self.spec = spec
+def _plain_mod(index, rate):
+    """a module-level function used as a value modifier"""
+    return rate * 1.25
+
+
+class _AddMod:
+    """callable object used as a value modifier"""
+
+    def __init__(self, v):
+        self.v = v
+
+    def __call__(self, index, rate):
+        return rate + self.v
+
+
+def _scaled(k, index, rate):
+    return rate * k
+
+
+class Mort(_Spec):
+    # class-level defaults: the framework must read them, never change them
+    CONFIGURATION_DEFAULTS = {"mort": {"scale": 16, "floor": {"value": 0.0, "unit": "per_year"}}}
 
     @property
     def name(self):
@@ -111,15 +221,21 @@ class Mort(Component):
         return ["tracked", "age", "sex"]
 
     def setup(self, builder):
-        data = pd.DataFrame([{"sex": s, "age_start": a, "age_end": a + 40, "value": v}
+        m = self.spec["mort"]
+        self.scale = builder.configuration.mort.scale / 16.0
+        data = pd.DataFrame([{"sex": s, "age_start": a, "age_end": a + 40, "value": v * self.scale}
                              for s, v0 in (("m", 2.5), ("f", 1.5)) for a, v in ((0, v0), (40, v0 * 2), (80, v0 * 4))])
         self.table = builder.lookup.build_table(data, key_columns=["sex"], parameter_columns=["age"], value_columns=["value"])
         if _is_dt(self.spec):
             self.rate = builder.value.register_rate_producer("mortality_rate", source=self.table, requires_columns=["age", "sex"])
         else:
             self.rate = builder.value.register_value_producer("mortality_rate", source=self._simple_rate, requires_columns=["age", "sex"])
-        for k in range(self.spec["mort"]["mods"]):
-            builder.value.register_value_modifier("mortality_rate", self.mod if k % 2 == 0 else self.mod2)
+        kinds = m.get("kinds") or ["method", "method2"]
+        for k in range(m["mods"]):
+            kind = kinds[k % len(kinds)]
+            f = {"method": self.mod, "method2": self.mod2, "function": _plain_mod, "object": _AddMod(1 / 128),
+                 "partial": functools.partial(_scaled, 0.875), "lambda": (lambda index, rate: rate * 1.0625)}[kind]
+            builder.value.register_value_modifier("mortality_rate", f)
         self.rs = builder.randomness.get_stream("mort")
 
     def _simple_rate(self, index):
@@ -134,33 +250,55 @@ class Mort(Component):
     def on_time_step(self, event):
         pop = self.population_view.get(event.index, query="tracked == True")
         if len(pop):
-            dead = self.rs.filter_for_rate(pop.index, self.rate(pop.index))
+            idx = _rev(pop.index, self.spec)
+            if self.spec["mort"].get("form") == "prob":
+                rate = self.rate(idx)
+                dead = self.rs.filter_for_probability(idx, 1 - np.exp(-rate.to_numpy()), "dies")
+            else:
+                dead = self.rs.filter_for_rate(idx, self.rate(idx))
             self.population_view.update(pd.Series(False, index=dead, name="tracked"))
 
 
 class _Prob:
-    """picklable per-transition probability function (sixteenths)"""
+    """picklable per-transition probability function (sixteenths); with `perm` the probability differs between simulants
+    and the Series comes back in REVERSED row order (correctly labelled)"""
 
-    def __init__(self, p):
-        self.p = p
+    def __init__(self, p, perm=False):
+        self.p, self.perm = p, perm
 
     def __call__(self, index):
-        return pd.Series(self.p / 16.0, index=index)
+        if not self.perm or self.p == 16:
+            return pd.Series(self.p / 16.0, index=index)
+        index = pd.Index(index)
+        return pd.Series(np.where(np.asarray(index) % 2 == 0, self.p / 16.0, self.p / 32.0), index=index)[::-1]
 
 
-class Disease(Component):
+class _Passing(State, Transient):
+    """a transient state: whoever enters moves on within the same step"""
+
+
+class Disease(_Spec):
     def __init__(self, spec):
-        super().__init__()
-        self.spec = spec
-        d = spec["disease"]
+        super().__init__(spec)
+        d = self.spec["disease"]
         names = ["s", "i", "r", "q"][: d["states"]]
-        states = [State(n, allow_self_transition=(d.get("self", True) or k == len(names) - 1)) for k, n in enumerate(names)]
+        states = []
+        for k, n in enumerate(names):
+            cls = _Passing if (d.get("transient") and 0 < k < len(names) - 1 and k == 1) else State
+            states.append(cls(n, allow_self_transition=(d.get("self", True) or k == len(names) - 1)))
         for k in range(len(states) - 1):
-            states[k].add_transition(Transition(states[k], states[k + 1], probability_func=_Prob(d["p"][k % len(d["p"])])))
+            p = 16 if isinstance(states[k], _Passing) else d["p"][k % len(d["p"])]
+            states[k].add_transition(Transition(states[k], states[k + 1], probability_func=_Prob(p, bool(self.spec.get("perm")))))
         if d["states"] >= 3 and d.get("back"):
             states[-1].add_transition(Transition(states[-1], states[0], probability_func=_Prob(d["p"][-1])))
+        self.trig = None
+        if d.get("trig") and d["states"] >= 3:
+            # a triggered transition s -> last state, inactive until this component activates it for some simulants
+            self.trig = Transition(states[0], states[-1], probability_func=_Prob(4), triggered=Trigger.START_INACTIVE)
+            states[0].add_transition(self.trig)
         self.machine = Machine("dstate", states)
         self._sub_components = [self.machine]
+        self.steps = 0
 
     @property
     def name(self):
@@ -170,19 +308,29 @@ class Disease(Component):
     def columns_created(self):
         return ["dstate"]
 
+    def setup(self, builder):
+        if self.spec["disease"].get("excess") and self.spec.get("mort"):
+            # a modifier of ANOTHER component's pipeline, registered before or after its source (component order)
+            builder.value.register_value_modifier("mortality_rate", self.excess, requires_columns=["dstate"])
+            self.view = builder.population.get_view(["dstate", "tracked"])
+
+    def excess(self, index, rate):
+        st = self.view.get(index)["dstate"]
+        return rate + (st != "s").astype(float).reindex(rate.index) * 0.5
+
     def on_initialize_simulants(self, pop_data):
         self.population_view.update(pd.Series("s", index=pop_data.index, name="dstate"))
 
     def on_time_step(self, event):
-        self.machine.transition(event.index, event.time)
+        t = self.spec["disease"].get("trig")
+        if self.trig is not None and self.steps == t["at"]:
+            self.trig.set_active(event.index[event.index % t["every"] == 0])
+        self.steps += 1
+        self.machine.transition(_rev(event.index, self.spec), event.time)
 
 
-class StepMod(Component):
+class StepMod(_Spec):
     """per-simulant clocks: some simulants ask for a longer step"""
-
-    def __init__(self, spec):
-        super().__init__()
-        self.spec = spec
 
     @property
     def name(self):
@@ -193,7 +341,7 @@ class StepMod(Component):
         self.clock = builder.time.clock()
         builder.time.register_step_size_modifier(self.modifier)
         self.base = (pd.Timedelta(days=self.spec["step"]) if _is_dt(self.spec) else self.spec["step"])
-        self.start = pd.Timestamp(2020, 1, 1) if _is_dt(self.spec) else 0
+        self.start = pd.Timestamp(*START) if _is_dt(self.spec) else 0
 
     def modifier(self, index):
         sm = self.spec["stepmod"]
@@ -215,15 +363,81 @@ class _AgeSum:
         return df["age"].sum()
 
 
+class _AgeMax:
+    def __call__(self, df):
+        return df["age"].max() if len(df) else 0.0
+
+
+class _Multi:
+    """aggregator returning a Series: a result with several value columns"""
+
+    def __call__(self, df):
+        return pd.Series({"n": float(len(df)), "agesum": float(df["age"].sum())})
+
+
+class _MaxUpdater:
+    """results_updater of a stratified observation: running maximum instead of a sum"""
+
+    def __call__(self, existing, new):
+        out = existing.copy()
+        # the order of the stratification levels the framework hands over is part of what a user callback sees: it is recorded
+        out["levels"] = "|".join(map(str, new.index.names))
+        if isinstance(new.index, pd.MultiIndex):
+            new = new.reorder_levels(list(existing.index.names))
+        out["value"] = np.maximum(existing["value"].to_numpy(), new["value"].reindex(existing.index).fillna(0.0).to_numpy())
+        return out
+
+
+class _Gather:
+    """results_gatherer of an unstratified observation (sees untracked simulants too: empty filter)"""
+
+    def __call__(self, pop):
+        return pd.DataFrame({"n": [len(pop)], "untracked": [int((~pop["tracked"]).sum())], "age": [float(pop["age"].sum())],
+                             "t": [pop["event_time"].iloc[0]]})
+
+
+class _Append:
+    def __call__(self, existing, new):
+        return new if existing.empty else pd.concat([existing, new], axis=0).reset_index(drop=True)
+
+
+class _EveryOther:
+    """stateful to_observe: observes on every other call (the counter is part of what a backup must carry)"""
+
+    def __init__(self):
+        self.n = 0
+
+    def __call__(self, event):
+        self.n += 1
+        return self.n % 2 == 1
+
+
+class _SexColor:
+    """vectorised mapper; with `perm` its output rows are in another order than the population's (labels kept)"""
+
+    def __init__(self, perm=False):
+        self.perm = perm
+
+    def __call__(self, df):
+        out = df["sex"] + df["color"]
+        return out[::-1] if self.perm else out
+
+
+class _SexColorRow:
+    def __call__(self, row):
+        return row["sex"] + row["color"]
+
+
 class _RiskSource:
     """picklable pipeline source: a different exact function of age per pipeline"""
 
-    def __init__(self, view, k):
-        self.view, self.k = view, k
+    def __init__(self, view, k, perm=False):
+        self.view, self.k, self.perm = view, k, perm
 
     def __call__(self, index):
         age = self.view.get(index)["age"]
-        return age * (self.k + 1) + self.k * 1000.0
+        out = age * (self.k + 1) + self.k * 1000.0
+        return out[::-1] if self.perm and self.k % 2 else out
 
 
 class _RiskSum:
@@ -236,19 +450,17 @@ class _RiskSum:
         return float(sum((k + 1) * df[f"risk_{k}"].sum() for k in range(self.n)))
 
 
-class Obs(Component):
-    def __init__(self, spec):
-        super().__init__()
-        self.spec = spec
-
+class Obs(_Spec):
     @property
     def name(self):
         return "obs"
 
     def setup(self, builder):
         o = self.spec["obs"]
+        when = o.get("when", "collect_metrics")
         strats = []
         if o["strats"] >= 1:
+            # excluded_categories=None: the configuration (stratification.excluded_categories) decides
             builder.results.register_stratification("sex", ["m", "f"], requires_columns=["sex"])
             strats.append("sex")
         if o["strats"] >= 2:
@@ -260,12 +472,9 @@ class Obs(Component):
         cols = ["sex", "color", "age"]
         if o.get("defaults"):
             # stratified by the configured defaults only: no additional_stratifications argument at all
-            builder.results.register_adding_observation("count_by_default", when=o.get("when", "collect_metrics"),
-                                                        requires_columns=cols)
-        builder.results.register_adding_observation("count", when=o.get("when", "collect_metrics"),
-                                                    additional_stratifications=strats, requires_columns=cols)
-        builder.results.register_adding_observation("agesum", when=o.get("when", "collect_metrics"),
-                                                    additional_stratifications=strats[:1], aggregator_sources=["age"],
+            builder.results.register_adding_observation("count_by_default", when=when, requires_columns=cols)
+        builder.results.register_adding_observation("count", when=when, additional_stratifications=strats, requires_columns=cols)
+        builder.results.register_adding_observation("agesum", when=when, additional_stratifications=strats[:1], aggregator_sources=["age"],
                                                     aggregator=_AgeSum(), requires_columns=["age"])
         if o.get("concat"):
             builder.results.register_concatenating_observation("rows", requires_columns=["age", "sex"])
@@ -274,10 +483,65 @@ class Obs(Component):
             # an observation that needs several VALUE PIPELINES (the results manager evaluates them per event)
             view = builder.population.get_view(["age", "tracked"])
             for k in range(nv):
-                builder.value.register_value_producer(f"risk_{k}", source=_RiskSource(view, k), requires_columns=["age"])
-            builder.results.register_adding_observation("risk_sum", when=o.get("when", "collect_metrics"),
-                                                        additional_stratifications=strats[:1], aggregator_sources=[f"risk_{k}" for k in range(nv)],
+                builder.value.register_value_producer(f"risk_{k}", source=_RiskSource(view, k, bool(self.spec.get("perm"))), requires_columns=["age"])
+            builder.results.register_adding_observation("risk_sum", when=when, additional_stratifications=strats[:1],
+                                                        aggregator_sources=[f"risk_{k}" for k in range(nv)],
                                                         aggregator=_RiskSum(nv), requires_values=[f"risk_{k}" for k in range(nv)])
+        if o.get("rich"):
+            self._rich(builder, o, when, strats, nv)
+
+    def _rich(self, builder, o, when, strats, nv):
+        """every other kind of observation and stratification the results interface offers"""
+        r = builder.results
+        phases = ["time_step__prepare", "time_step", "time_step__cleanup", "collect_metrics"]
+        other = phases[(phases.index(when) + 1) % 4]
+        # stratification with a vectorised / a per-row mapper over two sources
+        r.register_stratification("sexcolor", [s + c for s in "mf" for c in "rgb"], mapper=_SexColor(bool(self.spec.get("perm"))), is_vectorized=True,
+                                  requires_columns=["sex", "color"])
+        r.register_stratification("sexcolor_row", [s + c for s in "mf" for c in "rgb"], excluded_categories=["fb"], mapper=_SexColorRow(),
+                                  is_vectorized=False, requires_columns=["sex", "color"])
+        extra = ["sexcolor"]
+        if nv:
+            # a VALUE pipeline binned into a stratification
+            r.register_binned_stratification("risk_0", "risk_bin", [0, 40, 10 ** 9], ["lo", "hi"], target_type="value")
+            extra.append("risk_bin")
+        # stratified observation with its own updater (maximum), in another phase, with an excluded default
+        dflt = list(o.get("defaults") or [])
+        r.register_stratified_observation("age_max", when=other, requires_columns=["age"], results_updater=_MaxUpdater(),
+                                          results_formatter=_Reset(), additional_stratifications=extra[:1],
+                                          excluded_stratifications=dflt[-1:], aggregator_sources=["age"], aggregator=_AgeMax())
+        # unstratified observation; the empty filter includes untracked simulants
+        r.register_unstratified_observation("totals", pop_filter="", when=when, requires_columns=["age", "tracked"],
+                                            results_gatherer=_Gather(), results_updater=_Append())
+        # a filter on a column + a stateful to_observe
+        r.register_adding_observation("male_count", pop_filter='tracked == True and sex == "m"', when=when, requires_columns=["sex"],
+                                      additional_stratifications=extra[1:] + ["sexcolor_row"], to_observe=_EveryOther())
+        # aggregator that returns a Series (several result columns)
+        r.register_adding_observation("multi", when=other, requires_columns=["age"], additional_stratifications=strats[:2],
+                                      aggregator_sources=["age"], aggregator=_Multi())
+        # a concatenating observation that includes a value pipeline column
+        if nv:
+            r.register_concatenating_observation("risk_rows", when=other, requires_columns=["sex"], requires_values=["risk_0"])
+
+
+class _Reset:
+    def __call__(self, measure, results):
+        return results.reset_index()
+
+
+class RepObserver(Observer):
+    """an Observer subclass (results/observer.py): default stratification configuration + results directory"""
+
+    def __init__(self, spec):
+        super().__init__()
+        self.spec = decode(spec)
+
+    @property
+    def name(self):
+        return "rep_observer"
+
+    def register_observations(self, builder):
+        builder.results.register_adding_observation("rep_count", requires_columns=["age"], aggregator_sources=["age"], aggregator=_AgeSum())
 
 
 class _Const:
@@ -288,14 +552,48 @@ class _Const:
         return pd.Series(self.v, index=index)
 
 
-class Extras(Component):
+def shared_table(builder):
+    """data source named in the configuration as `vcheck.components::shared_table`"""
+    return pd.DataFrame([{"sex": s, "color": c, "value": 0.25 * (i + 1) + 0.125 * j}
+                         for i, s in enumerate("mf") for j, c in enumerate("rgb")])
+
+
+class Ledger(_Spec):
+    """a sub-component of Extras with legal but unusual registrations: an initializer that creates NO column (private state
+    only), a requirement nobody provides listed before one that is met, a modifier of a pipeline nobody sources, a stream
+    that is never used"""
+
+    @property
+    def name(self):
+        return "ledger"
+
+    @property
+    def initialization_requirements(self):
+        return {"requires_columns": ["nobody_provides_this", "age"], "requires_values": [], "requires_streams": []}
+
+    def setup(self, builder):
+        self.seen = {}
+        builder.value.register_value_modifier("nobody_sources_this", _plain_mod)
+        self.unused = builder.randomness.get_stream("ledger_unused")
+
+    def on_initialize_simulants(self, pop_data):
+        for i in pop_data.index:
+            self.seen[int(i)] = len(self.seen)
+
+
+class Extras(_Spec):
     """further framework services inside the same program: get_seed (external RNG seeded by the framework), a
     list-combiner pipeline with the union post-processor and modifiers from this component, a lookup table with a
-    `year` parameter and a scalar table, move_simulants_to_end for untracked simulants (per-simulant clocks only)."""
+    `year` parameter and a scalar table, move_simulants_to_end for untracked simulants (per-simulant clocks only);
+    optionally a categorical table, tables declared in the configuration (`data_sources`), data from an artifact, a
+    stream first used late in the run, private per-simulant state kept outside the state table, and handles obtained by
+    other components (Pop's stream and creator, Mort's pipeline)."""
 
     def __init__(self, spec):
-        super().__init__()
-        self.spec = spec
+        super().__init__(spec)
+        self.ledger = Ledger(self.spec) if self.spec["extras"].get("private") else None
+        if self.ledger is not None:
+            self._sub_components = [self.ledger]
 
     @property
     def name(self):
@@ -307,15 +605,26 @@ class Extras(Component):
 
     @property
     def columns_required(self):
-        return ["age", "tracked"]
+        return ["age", "tracked", "sex", "color"]
+
+    @property
+    def initialization_requirements(self):
+        # the initializer reads Pop's columns: the resource system must order it after Pop's
+        return {"requires_columns": ["age", "sex"], "requires_values": [], "requires_streams": ["extras_late"] if self.spec["extras"].get("late") is not None else []}
+
+    def make_tbl(self, builder):
+        """data source named in the configuration as `self::make_tbl`"""
+        return pd.DataFrame([{"sex": s, "age_start": a, "age_end": a + 50, "value": 0.5 * (i + 1) + a / 100}
+                             for i, s in enumerate("mf") for a in (0, 50, 100)])
 
     def setup(self, builder):
         from vivarium.framework.values import list_combiner, union_post_processor
+        x = self.spec["extras"]
         self.get_seed = builder.randomness.get_seed
         self.paf = builder.value.register_value_producer(
             "paf", source=lambda index: [pd.Series(0.0, index=index)], preferred_combiner=list_combiner,
             preferred_post_processor=union_post_processor)
-        for v in self.spec["extras"].get("pafs", [0.25, 0.5]):
+        for v in x.get("pafs", [0.25, 0.5]):
             builder.value.register_value_modifier("paf", _Const(v))
         if _is_dt(self.spec):
             data = pd.DataFrame([{"year_start": y, "year_end": y + 1, "value": float(y - 2015)} for y in range(2015, 2030)])
@@ -324,45 +633,158 @@ class Extras(Component):
             self.by_year = builder.lookup.build_table(3.0)
         self.scalar = builder.lookup.build_table((1.5, 2.5), value_columns=["p", "q"])
         self.move = builder.time.move_simulants_to_end() if self.spec.get("stepmod") else None
+        self.cat = None
+        if x.get("cat"):
+            data = pd.DataFrame([{"sex": s, "color": c, "a": 0.5 * (i + 1), "b": 0.25 * (j + 1)}
+                                 for i, s in enumerate("mf") for j, c in enumerate("rgb")])
+            self.cat = builder.lookup.build_table(data, key_columns=("sex", "color"), value_columns=("a", "b"))
+        self.ds3 = self.dsc = None
+        if x.get("ds"):
+            # Component.build_lookup_table with explicit value columns (three of them)
+            data = pd.DataFrame([{"sex": s, "age_start": a, "age_end": a + 60, "p": 0.5 + i, "q": 0.25 * (k + 1), "r": 2.0 * (i + k)}
+                                 for i, s in enumerate("mf") for k, a in enumerate((0, 60, 120))])
+            self.ds3 = self.build_lookup_table(builder, data, value_columns=["p", "q", "r"])
+            # … and a CATEGORICAL table (no parameter column) through the same helper
+            data = pd.DataFrame([{"sex": s, "color": c, "u": 0.5 * (i + 1), "v": 8.0 * (j + 1), "w": 64.0 * (i + j + 1)}
+                                 for i, s in enumerate("mf") for j, c in enumerate("rgb")])
+            self.dsc = self.build_lookup_table(builder, data, value_columns=["u", "v", "w"])
+        self.art = None
+        if x.get("art") and x["art"].get("via", "load") == "load":
+            df = builder.data.load("cause.probe.rate")
+            self.art = builder.lookup.build_table(df, key_columns=["sex"], parameter_columns=["age"], value_columns=["value"])
+        self.late = builder.randomness.get_stream("extras_late") if x.get("late") is not None else None
+        self.private = {} if x.get("private") else None        # per-simulant state kept OUTSIDE the state table
+        self.steps = 0
+        self.foreign = None
+        if x.get("foreign"):
+            # handles obtained by OTHER components: Pop's ordinary stream and creator; Mort's pipeline by name (may not be registered yet)
+            self.foreign = {"pop": builder.components.get_component("pop"),
+                            "rate": builder.value.get_value("mortality_rate") if self.spec.get("mort") else None}
 
     def on_initialize_simulants(self, pop_data):
         idx = pop_data.index
         rs = np.random.RandomState(self.get_seed("extras_init"))        # framework-seeded external generator
-        self.population_view.update(pd.DataFrame({"extra": rs.random_sample(len(idx)), "exposure": 0.0}, index=idx))
+        extra = rs.random_sample(len(idx))
+        if len(idx) and self.spec["extras"].get("late") is not None:
+            # a value that depends on columns created by ANOTHER component's initializer
+            seen = self.population_view.subview(["age", "sex"]).get(idx)
+            extra = extra + (seen["sex"] == "m").to_numpy() * 2.0 + np.floor(seen["age"].to_numpy())
+        self.population_view.update(pd.DataFrame({"extra": extra, "exposure": 0.0}, index=idx))
+        if self.private is not None:
+            for i in idx:
+                self.private[int(i)] = 0.0
 
     def on_time_step_cleanup(self, event):
-        pop = self.population_view.get(event.index)
+        x = self.spec["extras"]
+        pop = self.population_view.get(_rev(event.index, self.spec))
         if len(pop):
-            add = self.paf(pop.index) + self.by_year(pop.index).squeeze() / 16.0 + self.scalar(pop.index)["q"]
+            idx = pop.index
+            add = self.paf(idx) + self.by_year(idx).squeeze() / 16.0 + self.scalar(idx)["q"]
+            if self.cat is not None:
+                c = self.cat(idx)
+                add = add + c["a"] - c["b"] / 4
+            if self.lookup_tables:
+                # tables the framework built from the configuration before setup: scalar, self::method, module::function, artifact key
+                for name in sorted(self.lookup_tables):
+                    add = add + self.lookup_tables[name](idx) / 8.0
+            if self.ds3 is not None:
+                t = self.ds3(idx)
+                c = self.dsc(idx)
+                if x["ds"] == "pos":
+                    add = add + t.iloc[:, 0] + t.iloc[:, 1] * 4 + t.iloc[:, 2] * 16       # by POSITION (value_columns was a list)
+                else:
+                    add = add + t["p"] + t["q"] * 4 + t["r"] * 16 + c["u"] + c["v"] / 4 + c["w"] / 16
+            if self.art is not None:
+                add = add + self.art(idx)
+            if self.late is not None and self.steps >= x["late"]:
+                # first use of this stream at an unusual moment: late in the run, in the cleanup phase
+                add = add + np.floor(self.late.get_draw(idx, "late") * 8) / 8
+            if self.foreign is not None:
+                add = add + np.floor(self.foreign["pop"].rs.get_draw(idx, "foreign") * 4) / 4
+                tr = idx[pop["tracked"].to_numpy()]
+                if self.foreign["rate"] is not None and len(tr):
+                    add = add.add(self.foreign["rate"](tr, skip_post_processor=True).reindex(idx).fillna(0.0) / 64.0)
+            if self.private is not None:
+                for i in idx:
+                    self.private[int(i)] = self.private.get(int(i), 0.0) + 0.5
+                add = add + pd.Series([self.private[int(i)] + self.ledger.seen[int(i)] / 64.0 for i in idx], index=idx)
             self.population_view.update((pop["exposure"] + add).rename("exposure"))
+        self.steps += 1
         if self.move is not None:
             full = self.population_view.subview(["tracked"]).get(event.index, query="tracked == False")
             if len(full):
                 self.move(full.index)
 
 
-def build(spec):
-    comps = [Pop(spec)]
-    if spec.get("mort"):
-        comps.append(Mort(spec))
-    if spec.get("disease"):
-        comps.append(Disease(spec))
-    if spec.get("stepmod"):
-        comps.append(StepMod(spec))
-    if spec.get("obs"):
-        comps.append(Obs(spec))
-    if spec.get("extras"):
-        comps.append(Extras(spec))
+class Holder(Component):
+    """a component with no behaviour of its own that brings sub-components (nested-components route)"""
+
+    def __init__(self, subs):
+        super().__init__()
+        self._sub_components = list(subs)
+
+    @property
+    def name(self):
+        return "holder"
+
+
+CLASSES = [("pop", Pop), ("mort", Mort), ("disease", Disease), ("stepmod", StepMod), ("obs", Obs), ("extras", Extras)]
+
+
+def _ordered(spec):
+    """class names in the order the program wants its components"""
+    names = ["Pop"] + [cls.__name__ for key, cls in CLASSES[1:] if spec.get(key)]
+    if spec.get("obs") and spec["obs"].get("report"):
+        names.append("RepObserver")
     order = spec.get("order")
     if order:
-        comps = [comps[i % len(comps)] for i in order if i < len(comps)] + [c for k, c in enumerate(comps) if k not in order]
+        picked = [names[i % len(names)] for i in order if i < len(names)] + [n for k, n in enumerate(names) if k not in order]
         seen, out = set(), []
-        for c in comps:
-            if id(c) not in seen:
-                seen.add(id(c))
-                out.append(c)
-        comps = out
-    return comps
+        for n in picked:
+            if n not in seen:
+                seen.add(n)
+                out.append(n)
+        names = out
+    return names
+
+
+def build(spec):
+    return [globals()[n](spec) for n in _ordered(spec)]
+
+
+def component_strings(spec):
+    """the same components as a model specification names them (import path + string arguments)"""
+    h = encode(spec)
+    return {"vcheck": {"components": [f"{n}('{h}')" for n in _ordered(spec)]}}
+
+
+def start_time(spec):
+    return pd.Timestamp(*START) if _is_dt(spec) else 0
+
+
+def step_size(spec):
+    """the configured step as the clock represents it"""
+    if _is_dt(spec):
+        s = spec["step"]
+        return pd.Timedelta(days=s // 1, hours=(s % 1) * 24)
+    return spec["step"]
+
+
+def stop_time(spec):
+    if _is_dt(spec):
+        days = spec["step"] * spec["n_steps"]
+        return pd.Timestamp(*START) + pd.Timedelta(days=int(np.ceil(days)))
+    return spec["step"] * spec["n_steps"]
+
+
+def expected_steps(spec):
+    """number of steps the run loop takes, from the configuration alone (None when per-simulant clocks decide)"""
+    if spec.get("stepmod"):
+        return None
+    t, h, stop, n = start_time(spec), step_size(spec), stop_time(spec), 0
+    while t < stop:
+        t, n = t + h, n + 1
+    return n
 
 
 def configuration(spec):
@@ -375,17 +797,45 @@ def configuration(spec):
     elif spec["crn_keys"]:
         cfg["randomness"]["key_columns"] = ["entrance_time", "age", "uid"][: spec["crn_keys"]]
     if _is_dt(spec):
-        days = spec["step"] * spec["n_steps"]
-        end = pd.Timestamp(2020, 1, 1) + pd.Timedelta(days=int(np.ceil(days)))
-        cfg["time"] = {"start": {"year": 2020, "month": 1, "day": 1},
+        end = stop_time(spec)
+        cfg["time"] = {"start": {"year": START[0], "month": START[1], "day": START[2]},
                        "end": {"year": int(end.year), "month": int(end.month), "day": int(end.day)}, "step_size": spec["step"]}
     else:
         cfg["time"] = {"start": 0, "end": spec["step"] * spec["n_steps"], "step_size": spec["step"]}
     if spec.get("stepmod"):
         cfg["time"]["standard_step_size"] = spec["step"]
-    if spec.get("obs") and spec["obs"].get("defaults"):
-        cfg["stratification"] = {"default": list(spec["obs"]["defaults"])}
+    o = spec.get("obs")
+    if o and o.get("defaults"):
+        cfg["stratification"] = {"default": list(o["defaults"])}
+    if o and o.get("cfg_excl") and o["strats"] >= 1:
+        cfg.setdefault("stratification", {})["excluded_categories"] = {"sex": ["f"]}
+    m = spec.get("mort")
+    if m and m.get("scale") is not None:
+        cfg["mort"] = {"scale": m["scale"]}
+    x = spec.get("extras")
+    if x and x.get("tables"):
+        ds = {"k1": 2.5, "tbl": "self::make_tbl", "shared": "vcheck.components::shared_table"}
+        if x.get("art") and x["art"].get("via") == "ds":
+            ds["art"] = "cause.probe.rate"
+        cfg["extras"] = {"data_sources": ds}
+    if spec.get("report_dir"):
+        cfg["output_data"] = {"results_directory": spec["report_dir"]}
+    if x and x.get("art"):
+        cfg["input_data"] = {"artifact_path": spec["artifact_path"]}
+        if x["art"].get("draw") is not None:
+            cfg["input_data"]["input_draw_number"] = x["art"]["draw"]
     return cfg
+
+
+def write_artifact(path):
+    """the artifact the programs with extras.art read: a rate by sex and age with three draws"""
+    from vivarium.framework.artifact import Artifact
+    art = Artifact(path)
+    rows = [{"sex": s, "age_start": float(a), "age_end": float(a + 45), "draw_0": 0.125 * (i + 1) + k, "draw_1": 0.25 * (i + 1) + k,
+             "draw_2": 0.5 * (i + 1) + k} for i, s in enumerate("mf") for k, a in enumerate((0, 45, 90))]
+    art.write("cause.probe.rate", pd.DataFrame(rows).set_index(["sex", "age_start", "age_end"]))
+    art.write("metadata.note", ["probe"])
+    return path
 
 
 def plugins(spec):
